@@ -22,6 +22,16 @@ static const char* rcs(iwrc rc) {
   return rc == 0 ? "0" : rc == IW_ERROR_OUT_OF_BOUNDS ? "oob" : "err";
 }
 
+// CRC-32 (zlib polynomial) of the list contents: the brief state line of the long directed scripts
+static uint32_t crc_upd(uint32_t c, const void *p, size_t n) {
+  const uint8_t *b = p;
+  for (size_t i = 0; i < n; ++i) {
+    c ^= b[i];
+    for (int k = 0; k < 8; ++k) c = (c >> 1) ^ (0xedb88320u & (0u - (c & 1u)));
+  }
+  return c;
+}
+
 // ------------------------------------------------------------------------------------------- hash map
 static char flog[1 << 16];
 static size_t flen;
@@ -176,8 +186,18 @@ static void hm_line(int n, char **tv) {
 
 // ------------------------------------------------------------------------------------------- unit list
 static struct iwulist *ul;
+static int ul_brief; // "ul brief 1": state lines carry a checksum + first/last unit instead of all units
 
 static void ul_state(const struct iwulist *l) {
+  if (ul_brief) {
+    uint32_t c = 0xffffffffu;
+    for (size_t i = 0; i < l->num; ++i) c = crc_upd(c, iwulist_get(l, i), l->usize);
+    printf(" n=%zu st=%zu an=%zu crc=%08x hd=", l->num, l->start, l->anum, (unsigned) ~c);
+    if (l->num) puthex(iwulist_get(l, 0), l->usize); else printf("none");
+    printf(" tl=");
+    if (l->num) puthex(iwulist_get(l, l->num - 1), l->usize); else printf("none");
+    return;
+  }
   printf(" n=%zu st=%zu an=%zu d=", l->num, l->start, l->anum);
   if (!l->num) printf("-");
   for (size_t i = 0; i < l->num; ++i) {
@@ -204,10 +224,12 @@ static void ul_line(int n, char **tv) {
   const char *op = tv[1];
   if (!strcmp(op, "new")) {
     if (ul) iwulist_destroy(&ul);
+    ul_brief = 0;
     ul = iwulist_create(strtoul(tv[3], 0, 10), strtoul(tv[2], 0, 10));
     printf("ok"); ul_state(ul); printf("\n");
     return;
   }
+  if (!strcmp(op, "brief")) { ul_brief = atoi(tv[2]) != 0; printf("ok\n"); return; }
   if (!ul) { printf("noul\n"); return; }
   size_t us = ul->usize;
   if (!strcmp(op, "push") || !strcmp(op, "unshift")) {
@@ -263,7 +285,10 @@ static void ul_line(int n, char **tv) {
     iwulist_sort(ul, ul_cmp, (void*) (uintptr_t) us);
     printf("rc=0"); ul_state(ul); printf("\n");
   } else if (!strcmp(op, "dump")) {
+    // always the full contents
+    int b = ul_brief; ul_brief = 0;
     printf("rc=0"); ul_state(ul);
+    ul_brief = b;
     printf(" arr=%d\n", ul->num == 0 || iwulist_array(ul) == iwulist_get(ul, 0));
   } else if (!strcmp(op, "destroy")) {
     iwulist_destroy(&ul);
@@ -275,9 +300,35 @@ static void ul_line(int n, char **tv) {
 
 // ------------------------------------------------------------------------------------------- pointer list
 static IWLIST *pl;
+static int pl_brief; // "pl brief 1": state lines carry a checksum + first/last item instead of all items
+
+static void pl_item(const IWLIST *l, size_t i) {
+  size_t sz = 0;
+  char *p = iwlist_get(l, i, &sz);
+  if (!p) printf("nil"); else if (sz > (1 << 20)) printf("size!%zu", sz); else puthex(p, sz);
+}
 
 static void pl_state(const IWLIST *l) {
   int z = 1;
+  if (pl_brief) {
+    // checksum over (size & 255, bytes) of every item
+    uint32_t c = 0xffffffffu;
+    for (size_t i = 0; i < l->num; ++i) {
+      size_t sz = 0;
+      char *p = iwlist_get(l, i, &sz);
+      uint8_t b = (uint8_t) sz;
+      if (!p || sz > (1 << 20)) { z = 0; b = 0xff; c = crc_upd(c, &b, 1); continue; }
+      c = crc_upd(c, &b, 1);
+      c = crc_upd(c, p, sz);
+      if (p[sz] != 0) z = 0;
+    }
+    printf(" n=%zu st=%zu an=%zu crc=%08x hd=", l->num, l->start, l->anum, (unsigned) ~c);
+    if (l->num) pl_item(l, 0); else printf("none");
+    printf(" tl=");
+    if (l->num) pl_item(l, l->num - 1); else printf("none");
+    printf(" z=%d", z);
+    return;
+  }
   printf(" n=%zu st=%zu an=%zu d=", l->num, l->start, l->anum);
   if (!l->num) printf("-");
   for (size_t i = 0; i < l->num; ++i) {
@@ -302,10 +353,12 @@ static void pl_line(int n, char **tv) {
   const char *op = tv[1];
   if (!strcmp(op, "new")) {
     if (pl) iwlist_destroy(&pl);
+    pl_brief = 0;
     pl = iwlist_create(strtoul(tv[2], 0, 10));
     printf("ok"); pl_state(pl); printf("\n");
     return;
   }
+  if (!strcmp(op, "brief")) { pl_brief = atoi(tv[2]) != 0; printf("ok\n"); return; }
   if (!pl) { printf("nopl\n"); return; }
   if (!strcmp(op, "push") || !strcmp(op, "unshift")) {
     uint8_t *b; size_t l = unhexz(tv[2], &b);
@@ -317,7 +370,11 @@ static void pl_line(int n, char **tv) {
     char *v = op[0] == 'p' ? iwlist_pop(pl, &sz, &rc) : op[0] == 's' ? iwlist_shift(pl, &sz, &rc)
               : iwlist_remove(pl, strtoul(tv[2], 0, 10), &sz, &rc);
     printf("rc=%s v=", rcs(rc));
-    if (v) { puthex(v, sz); free(v); } else printf("nil");
+    // ownership: the element handed to the caller must not be referenced by the list any more (the caller frees it)
+    int dup = 0;
+    if (v) for (size_t i = 0; i < pl->num; ++i) if (pl->array[pl->start + i].val == v) dup = 1;
+    if (v) { if (sz > (1 << 20)) printf("size!%zu", sz); else puthex(v, sz); free(v); } else printf("nil");
+    if (dup) printf(" own=dup");
     pl_state(pl); printf("\n");
   } else if (!strcmp(op, "insert") || !strcmp(op, "set")) {
     uint8_t *b; size_t l = unhexz(tv[3], &b);
@@ -340,7 +397,10 @@ static void pl_line(int n, char **tv) {
     iwlist_sort(pl, pl_cmp, 0);
     printf("rc=0"); pl_state(pl); printf("\n");
   } else if (!strcmp(op, "dump")) {
+    // always the full contents
+    int b = pl_brief; pl_brief = 0;
     printf("rc=0"); pl_state(pl); printf("\n");
+    pl_brief = b;
   } else if (!strcmp(op, "destroy")) {
     iwlist_destroy(&pl);
     printf("d\n");
@@ -374,7 +434,8 @@ static void sa_line(int n, char **tv) {
   if (!strcmp(op, "new")) {
     free(sa);
     sa_cap = strtoul(tv[2], 0, 10); sa_n = 0;
-    sa = malloc(sizeof(*sa) * (sa_cap + 1));
+    // exactly sa_cap elements: an insert into the array with sa_cap - 1 elements fills the allocation to the last byte
+    sa = malloc(sizeof(*sa) * (sa_cap ? sa_cap : 1));
     printf("ok\n");
     return;
   }
